@@ -68,7 +68,6 @@ type Frame struct {
 	variant0  string
 	invokeMethod *types.Func
 	held      []*heldLock
-	regionSt  *State
 	nAcquire  int
 	nUnlock   int
 	relOrd    map[ssa.Instruction]int
@@ -456,6 +455,10 @@ func (fr *Frame) loopHead(li *loopInfo, phis []*ssa.Phi) {
 			if m.Src == "nothing" {
 				continue
 			}
+			if m.Src == "*" {
+				li.declared = nil
+				break
+			}
 			locs, err := fr.evalModifies(m, &evalCtx{fr: fr, st: fr.st, old: fr.entry, loop: li})
 			if err != nil {
 				fr.stale(name+"/modifies", err)
@@ -469,7 +472,13 @@ func (fr *Frame) loopHead(li *loopInfo, phis []*ssa.Phi) {
 			}
 		}
 	}
-	if ws.all && li.declared == nil {
+	starAll := false
+	for _, m := range li.lc.Modifies {
+		if m.Src == "*" {
+			starAll = true
+		}
+	}
+	if (ws.all || starAll) && li.declared == nil {
 		fr.vc.abstracted("loop " + name + " calls unknown code: all heaps havocked")
 		for _, h := range sortedKeys(fr.vc.heapSort) {
 			fr.vc.heapHavoc(fr.st, h)
@@ -507,7 +516,9 @@ func (fr *Frame) loopHead(li *loopInfo, phis []*ssa.Phi) {
 		// Wait inside it): the loop head is the acquire point for atAcquire();
 		// the latch checks that nothing guarded changed since the last acquire
 		li.regionAtHead = true
-		fr.regionSt = fr.st.clone()
+		rs := fr.st.clone()
+		rs.region = nil
+		fr.st.region = rs
 	}
 	for _, ph := range phis {
 		fr.seedVal(fr.vals[ph])
@@ -592,11 +603,11 @@ func (fr *Frame) loopLatch(li *loopInfo, from *ssa.BasicBlock) {
 			fr.oblige("decreases", name+"/decreases", and(app("<=", "0", li.variant), app("<", t, li.variant)))
 		}
 	}
-	if li.regionAtHead && fr.regionSt != nil {
+	if li.regionAtHead && fr.st.region != nil {
 		for _, h := range fr.topFrame().held {
 			for _, hn := range sortedKeys(h.spec.heapSet) {
 				cur := sel(fr.vc.heapGet(fr.st, hn), h.ref)
-				at := sel(fr.vc.heapGet(fr.regionSt, hn), h.ref)
+				at := sel(fr.vc.heapGet(fr.st.region, hn), h.ref)
 				if cur != at {
 					fr.oblige("region", name+"/since-acquire#"+strings.TrimPrefix(hn, "F$"), eq(cur, at))
 				}
@@ -625,10 +636,10 @@ func (fr *Frame) loopLatch(li *loopInfo, from *ssa.BasicBlock) {
 			if !okH {
 				head = fr.vc.heapInit(h)
 			}
-			if cur == head || strings.HasPrefix(h, "G$") || strings.HasPrefix(h, "RV$") || wholeDeclared(li, h) {
+			if cur == head || strings.HasPrefix(h, "G$") || strings.HasPrefix(h, "RV$") || strings.HasPrefix(h, "CV$") || strings.HasPrefix(h, "LK$") || wholeDeclared(li, h) {
 				continue
 			}
-			fr.oblige("frame", name+"/frame#"+h, loopFrameFormula(li, h, cur, head))
+			fr.oblige("loop-frame", name+"/frame#"+h, loopFrameFormula(li, h, cur, head))
 		}
 	}
 	for ph, v := range saved {
